@@ -1,6 +1,7 @@
 package utils
 
 import (
+	"bytes"
 	"fmt"
 	"io"
 )
@@ -138,15 +139,21 @@ func ReadUint32(rd io.Reader) (uint32, error) {
 
 // ReadNBytes reads n bytes from the reader
 func ReadNBytes(n int, rd io.Reader) ([]byte, error) {
-	var b []byte = make([]byte, n)
-	num, err := rd.Read(b)
+	// don't trust n (it may come from a length field of the input): grow with the data that is really there
+	const step = 4096
 
-	// if num is correct, we are not interested in io.EOF errors
-	if num == n {
-		err = nil
+	if n <= step {
+		var b []byte = make([]byte, n)
+		_, err := io.ReadFull(rd, b)
+		return b, err
 	}
 
-	return b, err
+	var bf bytes.Buffer
+	_, err := io.CopyN(&bf, rd, int64(n))
+	if err == io.EOF && bf.Len() > 0 {
+		err = io.ErrUnexpectedEOF
+	}
+	return bf.Bytes(), err
 }
 
 // ErrUnexpectedEOF is returned, when an unexspected end of file is reached.
